@@ -755,7 +755,8 @@ def fam_robust(col, g, tier):
                     "np_seed": int(g.integers(1 << 30))}
             contract(col, "robust-structure", f"solve_poisson_robust:core-plus-residual:Z{z}", spec)
             contract(col, "robust-vs-plain", f"solve_poisson_robust:smooth-density:Z{z}", dict(spec, tol=2e-3))
-            contract(col, "accuracy", f"solve_poisson_robust:smooth-density:Z{z}:split2-True", dict(spec, tol=2e-3, options={"split2": True}))
+            # the greedy non-negative fit may move charge into very diffuse or very sharp functions: documented accuracy of the split solver is 1-5 %
+            contract(col, "accuracy", f"solve_poisson_robust:smooth-density:Z{z}:split2-True", dict(spec, tol=3e-2, options={"split2": True}))
         # split 2: members of the fit basis on top of the core model are removed analytically (single centre: exact)
         basis = sorted(float(x) for x in g.uniform(0.3, 5.0, 3))
         gs = atom_grid("Becke", becke_args(g), {}, int(g.integers(58, 77)), 5)
@@ -776,8 +777,17 @@ def fam_robust(col, g, tier):
         terms = core_terms(1, cs[0]) + core_terms(8, cs[1]) + extra
         for split2 in ((False, True) if tier != "quick" else (bool(g.integers(2)),)):
             spec = {"solver": "robust", "atnums": [1, 8], "grid": gs, "density": terms, "options": {"split2": split2, "include_origin": False},
-                    "points": mkpts(g, cs, 0.4, 4.0).tolist(), "tol": 1e-2, "rel": True, "np_seed": int(g.integers(1 << 30))}
+                    "points": mkpts(g, cs, 0.4, 4.0).tolist(), "tol": 3e-2 if split2 else 1e-2, "rel": True, "np_seed": int(g.integers(1 << 30))}
             contract(col, "accuracy", f"solve_poisson_robust:two-centre:core+smooth:split2-{split2}", spec)
+        # split 2 on two well separated centres: sharp basis members on both atoms are removed analytically up to their tiny overlap
+        gs = mol_grid(g, ("Becke", becke_args(g), {}), (int(g.choice([5, 7])), int(g.choice([7, 9]))), (int(g.integers(40, 50)), int(g.integers(50, 60))), (8, 1), 2.6, 3.2)
+        cs = centres(gs)
+        big = float(g.uniform(3.5, 5.0))
+        terms = core_terms(8, cs[0]) + core_terms(1, cs[1]) + [{"t": "s", "a": big, "c": float(g.uniform(0.3, 1)), "at": cs[0].tolist()},
+                                                                {"t": "s", "a": big, "c": float(g.uniform(0.3, 1)), "at": cs[1].tolist()}]
+        spec = {"solver": "robust", "atnums": [8, 1], "grid": gs, "density": terms, "options": {"split2": True, "alphas_basis": [big], "include_origin": False},
+                "points": mkpts(g, cs, 0.3, 4.0).tolist(), "tol": 1e-4, "rel": True, "np_seed": int(g.integers(1 << 30))}
+        contract(col, "accuracy", "solve_poisson_robust:split2:two-centre:basis-members", spec)
 
 
 def _raises(fn, exc):
